@@ -230,9 +230,17 @@ func scTransportChannel(r *Run) {
 	var wg sync.WaitGroup
 	stopRead := make(chan struct{})
 	// readers
-	reader := func(name string, rd func([]byte) (int, error), setDL func(time.Time) error, side *chanSide) {
+	reader := func(name string, rd func([]byte) (int, error), setDL func(time.Time) error, side *chanSide, msgMode bool) {
 		defer wg.Done()
-		buf := make([]byte, 65535)
+		full := make([]byte, 65535)
+		buf := full
+		// some applications read with a small buffer and retry with a larger one when told that the message
+		// does not fit: the held-back message must then come out unchanged, once
+		small := 0
+		if msgMode && r.Intn("rbuf:"+name, 3) == 0 { // (Read, the stream call, hands out what fits and keeps the rest)
+			small = 1 + r.Intn("rbuf:"+name, 300)
+			buf = full[:small]
+		}
 		for {
 			select {
 			case <-stopRead:
@@ -241,6 +249,26 @@ func scTransportChannel(r *Run) {
 			}
 			setDL(time.Now().Add(200 * time.Millisecond))
 			k, err := rd(buf)
+			if small > 0 {
+				if errors.Is(err, transport.ErrBufOverflow) {
+					r.CountFault("reader-buffer-too-short", 1)
+					if len(buf) == len(full) {
+						r.Violate("C03/held-back-message-grew", "%s: ReadMsg reports that the held-back message does not fit a buffer of %d bytes; no message that large can be written (limit %d)", name, len(full), transport.MaxPlaintextSize)
+						return
+					}
+					grow := 2 * len(buf)
+					if r.Intn("rbuf:"+name, 4) == 0 {
+						grow = len(buf) + 1 + r.Intn("rbuf:"+name, 64) // (still too short for most messages)
+					}
+					buf = full[:min(grow, len(full))]
+					continue
+				}
+				if err == nil {
+					side.got(r, buf[:k])
+					buf = full[:small]
+					continue
+				}
+			}
 			if err != nil {
 				if errors.Is(err, os.ErrDeadlineExceeded) {
 					continue
@@ -258,11 +286,11 @@ func scTransportChannel(r *Run) {
 	for _, s := range sessions {
 		s := s
 		wg.Add(2)
-		r.Go(func() { reader(s.c2s.name, s.h.ReadMsg, s.h.SetReadDeadline, s.c2s) })
+		r.Go(func() { reader(s.c2s.name, s.h.ReadMsg, s.h.SetReadDeadline, s.c2s, true) })
 		if r.Intn("cfg", 2) == 0 {
-			r.Go(func() { reader(s.s2c.name, s.tc.C.ReadMsg, s.tc.C.SetReadDeadline, s.s2c) })
+			r.Go(func() { reader(s.s2c.name, s.tc.C.ReadMsg, s.tc.C.SetReadDeadline, s.s2c, true) })
 		} else {
-			r.Go(func() { reader(s.s2c.name, s.tc.C.Read, s.tc.C.SetReadDeadline, s.s2c) })
+			r.Go(func() { reader(s.s2c.name, s.tc.C.Read, s.tc.C.SetReadDeadline, s.s2c, false) })
 		}
 	}
 
